@@ -1,6 +1,7 @@
 #!/bin/bash
 # tools/seedtest.sh <ID> <patch.diff> [check args]: apply a seeded change to /repo, run the check, undo.
 ID=$1; P=$2; shift 2
+if [ -n "$(git -C /repo status --porcelain)" ]; then echo "seedtest: /repo has uncommitted changes, refusing"; exit 4; fi
 git -C /repo apply "$(readlink -f $P)" || exit 3
 ( cd /verif && ./check $ID --no-evidence "$@" ); rc=$?
 git -C /repo checkout -- . 
